@@ -23,4 +23,60 @@ PROPS = {
             "BulletproofGens::new's Ok-condition is taken from its contract (stub here; its body is under contract in unit gens)",
         ],
     },
+    "C03": {
+        "units": ["verify"],
+        "design_ref": "DESIGN.md section 7, C03",
+        "technique": "contract-based deductive verification (Verus) of the real verify_batch / consistency check / verify, extracted mechanically on every run; unbounded in the batch size",
+        "claim": "For every batch size k (no bound; chunking specified by chunk_k) verify_batch refuses empty or length-mismatched inputs, runs the whole-batch "
+                 "consistency check, hands every chunk of statements, proofs and transcripts to verify, and on success returns exactly k results whose i-th entry is "
+                 "the mask specification of the i-th triple; the consistency check returns Ok only if all members share bit length, extension degree and "
+                 "d1 length and it selects the largest member. The probabilistic 'only if' direction (an accepted batch implies each member's equation) is not a "
+                 "deductive fact and is not claimed.",
+        "assumptions": [
+            "slice::chunks / chunks_mut are specified by chunk_k(s, n, k) = s[min(kn,len) .. min((k+1)n,len)] (shim)",
+            "equality of the Pedersen generator vectors across members is checked by the code with slice equality, whose result is not specified here; agreement of gi/hi generator prefixes (Iterator::any with a closure) is not covered",
+            "soundness direction (accepted batch => every member's equation holds) is probabilistic over the weights (Schwartz-Zippel) and outside deductive reach",
+        ],
+    },
+    "C04": {
+        "units": ["transcripts", "verify"],
+        "design_ref": "DESIGN.md section 7, C04",
+        "technique": "contract-based deductive verification (Verus): ghost-log model of merlin; real TranscriptProtocol impl, RangeProofTranscript and verify proved to absorb exactly the specified sequence before each challenge",
+        "claim": "Every challenge (y, z, each round e_j, final e) derived by the verifier is proved to equal the transcript oracle applied to exactly the specified log: "
+                 "caller context, domain separator, H, every G_k, bit length, extension degree, aggregation factor, every commitment, every promise (absent = 0), then A; "
+                 "then y; then every (L_j, R_j) before e_j; then A1, B before e - for all configurations and proofs. Different logs giving different challenges is the "
+                 "random-oracle assumption on Strobe and is not provable.",
+        "assumptions": [
+            "merlin 3.0.0 is modelled by a ghost log of (label, message) / (label, n) events with an uninterpreted strobe_prf; message framing by length is merlin's",
+            "collision resistance / random-oracle behaviour of Strobe-128 (a changed log gives a changed challenge) is assumed, not proved",
+            "prover-side transcript agreement is part of unit prove (listed there when claimed)",
+        ],
+    },
+    "C09": {
+        "units": ["nonce", "verify"],
+        "design_ref": "DESIGN.md section 7, C09",
+        "technique": "contract-based deductive verification (Verus): byte-level KDF contract for nonce(), per-component mask formula as loop invariants of the real verify(), position-wise postcondition",
+        "claim": "nonce() is proved to be the documented keyed-Blake2b KDF (byte layout of key, label as persona, index encoding) and total on the verifier's arguments; "
+                 "verify() is proved to return, for every batch position i and every extension-degree component k, exactly "
+                 "((d1[k] - eta_k - e*d_k)*e^-2 - alpha_k - sum_j(e_j^2*dL_jk + e_j^-2*dR_jk)) * (z^2*y^(n+1))^-1 when the statement carries a seed and the mode recovers, "
+                 "and None otherwise (VerifyOnly, no seed).",
+        "assumptions": [
+            "Blake2bMac512 / Scalar::from_bytes_mod_order_wide are uninterpreted functions with the documented Ok-condition (key <= 64, salt/persona <= 16 bytes)",
+            "Scalar::batch_invert returns element-wise inverses (its debug_assert for a zero input concerns y == 1, probability 2^-252)",
+            "the prover-side d1 formula and the composition lemma (recovered value == blinding factor) are claimed only once unit prove is in place",
+        ],
+    },
+    "C16": {
+        "units": ["verify", "nonce", "gens", "ctors"],
+        "design_ref": "DESIGN.md section 7, C16",
+        "technique": "contract-based deductive verification (Verus): built-in panic-freedom obligations (index, overflow, unwrap, shift) and dependency preconditions (dalek multiscalar length assertions) on the real verification path",
+        "claim": "verify_batch, verify, the consistency check, the decompression helpers, nonce/encode_usize, compute_generator_padding and the generator iterator are proved "
+                 "panic-free for every input under 'statements built through the validating constructors': every index, every + - * << >>, every pop/unwrap and both dalek "
+                 "multiscalar length equalities (including static == table size with the computed padding) for every batch shape and capacity mix; every loop on the path "
+                 "terminates. The decoder (from_bytes) is covered by unit codec when listed in coverage.units.",
+        "assumptions": [
+            "Scalar::batch_invert's debug_assert fires (debug builds only) if y == 1, a Fiat-Shamir challenge value with probability 2^-252; no input can be exhibited",
+            "'time proportional to input size' is not expressible; termination of every loop is what is proved",
+        ],
+    },
 }
